@@ -168,6 +168,20 @@ def more_cases(tier, seed):
                                  {"match": {"kind": "gate", "name": "main-hold"}, "until": {"event": {"kind": "fn_exit", "fnkind": "branch", "path": "0/b1"}}}],
                        "opts": {"idle_s": 0.5, "hang_s": 3.0}}
                 j += 1
+    # resumed invocation, the survivor opens a NEW nested context (registered in this invocation) before its block completes, and starts
+    # operations inside that context afterwards
+    for kind in ("par", "map"):
+        for nextop in ("step", "wait", "child", "wfc"):
+            surv = [{"k": "wait", "s": 1}, {"k": "child", "body": [{"k": "step", "val": "in0"}, {"k": "gate", "name": "surv"}, dict(NEXT_OPS[nextop]), {"k": "step", "val": "tail"}]}]
+            brs = [{"body": [{"k": "wait", "s": 1}, {"k": "step", "val": "fast"}]}, {"body": surv}]
+            node = {"k": "par", "branches": brs, "cfg": {"min_ok": 1}} if kind == "par" else {"k": "map", "items": [0, 1], "per_item": brs, "body": [], "cfg": {"min_ok": 1}}
+            done_cond = {"applied": {"Name": "0", "Type": "CONTEXT", "Action": "SUCCEED"}}
+            yield {"label": "resumed-new-nested-context|%s|%s" % (kind, nextop), "prog": {"body": [node, {"k": "gate", "name": "main-hold"}, {"k": "step", "val": "end"}]},
+                   "prog_seed": 19970 + j, "pattern": {"p": "plain"}, "max_inv": 12, "world": {"complete": {}, "timers": "all"},
+                   "holds": [{"match": {"kind": "gate", "name": "surv"}, "until": done_cond, "delay_ms": rng.choice([0, 3])},
+                             {"match": {"kind": "gate", "name": "main-hold"}, "until": {"event": {"kind": "fn_exit", "fnkind": "branch", "path": "0/b1"}}}],
+                   "opts": {"idle_s": 0.5, "hang_s": 3.0}}
+            j += 1
     for kind in ("par", "map"):
         for position in ("inside-function", "between-operations", "first-operation"):
             for nextop in ("step", "wait", "child", "cb"):
